@@ -5,6 +5,7 @@ BAD=0
 for d in /verif/seeded/s*/; do
   id=$(basename $d); prop=$(echo $id | cut -d_ -f2)
   if [ -n "$WANT" ] && ! echo " $WANT " | grep -q " $prop "; then continue; fi
+  if /venv/bin/python -c "import json,sys; sys.exit(0 if json.load(open('$d/meta.json')).get('missed') else 1)"; then echo "$id known miss (see meta.json: why_missed)"; continue; fi
   DET=$(/venv/bin/python -c "import json,sys; m=json.load(open('$d/meta.json')); print(' '.join(x.split(':')[0] for x in m.get('detection',[]) if x.endswith('rc=1')) or '$prop')")
   git -C /repo apply $d/patch.diff 2>/dev/null || git -C /repo apply --3way $d/patch.diff 2>/dev/null || { echo "$id PATCH DOES NOT APPLY"; git -C /repo reset -q --hard HEAD; BAD=1; continue; }
   OUT=$(/verif/tools/quick_all.py $DET 2>&1)
